@@ -761,7 +761,7 @@ def h4(ctx, rep, entries, O):
                 # `any(x in L: f(x) != f(L[0]))`: true iff the f-values are not all equal, whichever element comes first
                 adm["all-equal-test"] = adm.get("all-equal-test", 0) + 1
                 continue
-            if t.op == "slice_from" and len(t.a) > 1 and t.a[1] is tm.ONE and tail_all_equal(t, par):
+            if t.op in ("slice_from", "skip") and len(t.a) > 1 and t.a[1] is tm.ONE and tail_all_equal(t, par):
                 # `rest.iter().any(|x| f(x) != f(first))` with (first, rest) = split_first(L): the all-equal test again
                 adm["all-equal-test"] = adm.get("all-equal-test", 0) + 1
                 continue
@@ -784,7 +784,7 @@ def h4(ctx, rep, entries, O):
 
 
 def _base_list(x):
-    while isinstance(x, tm.T) and x.op in ("collect", "map", "iter", "cloned", "copied", "slice_from"):
+    while isinstance(x, tm.T) and x.op in ("collect", "map", "iter", "cloned", "copied", "slice_from", "skip"):
         x = x.a[0]
     return x
 
@@ -836,7 +836,8 @@ def tail_all_equal(t, par):
             if p.op in ("iter", "map", "collect", "cloned", "copied"):
                 todo.append(p)
             elif p.op in ("any", "all") and isinstance(p.a[1], tm.T) and p.a[1].op == "lam":
-                firsts = [y for y in tm.subterms(p.a[1]) if y.op == "index" and len(y.a) > 1 and y.a[1] is tm.ZERO
+                firsts = [y for y in tm.subterms(p.a[1])
+                          if ((y.op == "index" and len(y.a) > 1 and y.a[1] is tm.ZERO) or y.op == "first_val")
                           and isinstance(y.a[0], tm.T) and _base_list(y.a[0]) is base]
                 if not firsts:
                     return False
